@@ -22,15 +22,25 @@ Val(i, j) == ToString(10 * i + j)
 Pairs == {p \in (1..NK) \X (1..NH) : \E d \in 0..(Spread - 1) : p[2] = ((p[1] - 1 + d) % NH) + 1}
 Item(p) == [key |-> Key(p[1]), val |-> Val(p[1], p[2]), h |-> Hash(p[2])]
 
-Locs(t) == {[k |-> "auto"], [k |-> "root"]}
+Locs(t) == {[k |-> "auto"], [k |-> "root"], [k |-> "freed", side |-> 0]}
            \cup {[k |-> "index0", side |-> s] : s \in {0, 1}}
            \cup {[k |-> "leaf", key |-> x, side |-> s] : x \in KeysOf(t), s \in {0, 1}}
-InsertOps(t) == {[k |-> "insert", key |-> Item(p).key, val |-> Item(p).val, h |-> Item(p).h, loc |-> l] : p \in Pairs, l \in Locs(t)}
+\* inserts with at most ONE reason to fail (duplicate key, duplicate hash, unusable location): each
+\* reason is tried alone in every state that admits it; combinations add nothing
+InsertViolations(t, op) == (IF op.key \in KeysOf(t) THEN 1 ELSE 0) + (IF op.h \in HashesOf(t) THEN 1 ELSE 0)
+                           + (IF LocOk(t, op.loc) THEN 0 ELSE 1)
+InsertOps(t) == {op \in {[k |-> "insert", key |-> Item(p).key, val |-> Item(p).val, h |-> Item(p).h, loc |-> l] : p \in Pairs, l \in Locs(t)} :
+                   InsertViolations(t, op) <= 1}
 UpsertOps == {[k |-> "upsert", key |-> Item(p).key, val |-> Item(p).val, h |-> Item(p).h] : p \in Pairs}
 DeleteOps == {[k |-> "delete", key |-> Key(i)] : i \in 1..NK}
-\* batches: item lists with non-decreasing keys (repeats allowed: duplicate keys and hashes inside a batch)
+\* batches: item lists with non-decreasing keys and at most ONE violation of the guard (an item whose key,
+\* or whose hash, is already in the tree or earlier in the list): every way of failing is tried once,
+\* piles of simultaneous violations are not
 BatchSeqs == UNION {{s \in [1..n -> Pairs] : \A i \in 1..(n - 1) : s[i][1] <= s[i + 1][1]} : n \in 0..MaxBatch}
-BatchOps == {[k |-> "batch", items |-> [i \in DOMAIN s |-> Item(s[i])]] : s \in BatchSeqs}
+Violations(t, s) ==
+  Cardinality({i \in DOMAIN s : Key(s[i][1]) \in KeysOf(t) \/ \E j \in 1..(i - 1) : s[j][1] = s[i][1]})
+  + Cardinality({i \in DOMAIN s : Hash(s[i][2]) \in HashesOf(t) \/ \E j \in 1..(i - 1) : s[j][2] = s[i][2]})
+BatchOps(t) == {[k |-> "batch", items |-> [i \in DOMAIN s |-> Item(s[i])]] : s \in {x \in BatchSeqs : Violations(t, x) <= 1}}
 
 VARIABLE hist
 mcvars == <<tree, pm, last, hist>>
@@ -45,7 +55,7 @@ Forget == ~AtRest /\ last' = [op |-> [k |-> "rest"], ok |-> TRUE] /\ UNCHANGED <
 Insert == \E op \in InsertOps(tree) : Step(op)
 Upsert == \E op \in UpsertOps : Step(op)
 Delete == \E op \in DeleteOps : Step(op)
-BatchInsert == \E op \in BatchOps : Step(op)
+BatchInsert == \E op \in BatchOps(tree) : Step(op)
 CalcLazyHashes == Step([k |-> "calc"])
 Reload == Step([k |-> "reload"])
 Next == Insert \/ Upsert \/ Delete \/ BatchInsert \/ CalcLazyHashes \/ Reload \/ Forget
